@@ -139,6 +139,16 @@ func spellings(thorough bool) []gen.Spelling {
 			}
 		}
 	}
+	// blanks inside annotations: a tab, a run of blanks, or nothing between the opening mark and the rule
+	// object or note, before the closing mark, and as indentation of the body line of the three-line form
+	for _, in := range []string{"\t", "\t\t", " \t ", "   ", "-"} {
+		for _, eol := range []string{"\n", "\r\n", "\r"} {
+			for ml := 0; ml < 3; ml++ {
+				out = append(out, gen.Spelling{EOL: eol, Indent: []string{"  ", "\t", ""}[i%3], Comments: i % 2, MultiLine: ml, QuoteNames: i%2 == 1, TrailComma: i%4 >= 2, Inner: in})
+				i++
+			}
+		}
+	}
 	return out
 }
 
